@@ -345,11 +345,15 @@ func appendSlice(expr ast.Expr, lhsV reflect.Value, rhsV reflect.Value) (reflect
 		return reflect.AppendSlice(lhsV, rhsV), nil
 	}
 
+	// the values are converted first and appended at once,
+	// so an error does not leave values written into the array of lhs
+	values := make([]reflect.Value, 0, rhsV.Len())
+
 	if rhsT.ConvertibleTo(lhsT) {
 		for i := 0; i < rhsV.Len(); i++ {
-			lhsV = reflect.Append(lhsV, rhsV.Index(i).Convert(lhsT))
+			values = append(values, rhsV.Index(i).Convert(lhsT))
 		}
-		return lhsV, nil
+		return reflect.Append(lhsV, values...), nil
 	}
 
 	leftHasSubArray := lhsT.Kind() == reflect.Slice || lhsT.Kind() == reflect.Array
@@ -365,20 +369,20 @@ func appendSlice(expr ast.Expr, lhsV reflect.Value, rhsV reflect.Value) (reflect
 			if rhsT == interfaceType {
 				if value.IsNil() {
 					// nil converts to the zero value of the element type
-					lhsV = reflect.Append(lhsV, reflect.Zero(lhsT))
+					values = append(values, reflect.Zero(lhsT))
 					continue
 				}
 				value = value.Elem()
 			}
 			if lhsT == value.Type() {
-				lhsV = reflect.Append(lhsV, value)
+				values = append(values, value)
 			} else if value.Type().ConvertibleTo(lhsT) {
-				lhsV = reflect.Append(lhsV, value.Convert(lhsT))
+				values = append(values, value.Convert(lhsT))
 			} else {
 				return nilValue, newStringError(expr, "invalid type conversion")
 			}
 		}
-		return lhsV, nil
+		return reflect.Append(lhsV, values...), nil
 	}
 
 	if (leftHasSubArray || lhsT == interfaceType) && (rightHasSubArray || rhsT == interfaceType) {
@@ -394,9 +398,9 @@ func appendSlice(expr ast.Expr, lhsV reflect.Value, rhsV reflect.Value) (reflect
 			if err != nil {
 				return nilValue, err
 			}
-			lhsV = reflect.Append(lhsV, newSlice)
+			values = append(values, newSlice)
 		}
-		return lhsV, nil
+		return reflect.Append(lhsV, values...), nil
 	}
 
 	return nilValue, newStringError(expr, "invalid type conversion")
